@@ -257,6 +257,8 @@ def gen_inline(rng, cfg, depth, budget):
                     st.append('margin-%s:%dpx' % (side, rng.choice([1, 3, 7, 15])))
             if cfg['mixed'] and rng.random() < 0.5:
                 st.append('font-size:%dpx' % rng.choice(SIZES))
+            if depth >= 1:
+                cfg['has_nested'] = True
             h, t = gen_inline(rng, cfg, depth + 1, 0)
             html += '<span style="%s">%s</span>' % (';'.join(st), h)
             toks += t
@@ -264,6 +266,8 @@ def gen_inline(rng, cfg, depth, budget):
             html += '<span style="display:inline-block;width:%dpx;height:%dpx"></span>' % (
                 rng.choice([5, 10, 20, 40, 100]), rng.choice([1, 5, 10, 30]))
             toks.append(('o',))
+            if depth >= 1:
+                cfg['has_ib_in_span'] = True
         else:
             wd = ''.join(rng.choice(LET) for _ in range(rng.choice(cfg['lens'])))
             if cfg['shy'] and len(wd) > 1 and rng.random() < 0.3:
@@ -310,7 +314,8 @@ def gen_render_case(rng, idx):
                 idx, style, body))
     return dict(html=html, toks=toks, fs=fs, ws=ws, ow=ow, wb=wb, ta=ta, rtl=rtl, width=width, indent=indent, flt=flt,
                 mixed=cfg['mixed'], shy=cfg['shy'], spans=cfg['p_span'] > 0,
-                leftdeco=cfg['leftdeco'] and cfg['p_span'] > 0)
+                leftdeco=cfg['leftdeco'] and cfg['p_span'] > 0,
+                nested=cfg.get('has_nested', False), ib_in_span=cfg.get('has_ib_in_span', False))
 
 
 def source_text(toks, ws):
